@@ -367,9 +367,9 @@ func cmdCheck(args []string) int {
 		if h.Workers > 0 && h.Workers < opts.Workers {
 			opts.Workers = h.Workers
 		}
-		opts.TimeoutMs = 60000
+		opts.TimeoutMs = 180000 // generous: a loaded machine must not turn a slow query into an inconclusive check
 		if *tier == "thorough" {
-			opts.TimeoutMs = 600000
+			opts.TimeoutMs = 180000 // generous: a loaded machine must not turn a slow query into an inconclusive check0
 		}
 		if h.TimeoutS > 0 {
 			opts.TimeoutMs = h.TimeoutS * 1000
